@@ -483,3 +483,18 @@ Theorem c15_init_rejected_is_empty : forall (V : Type) (vzero vdef : V) d tz r c
   (ty V (fst res), rows V (fst res), cols V (fst res), freqs V (fst res), per_f V (fst res)) = (VUNDEF, 0, 0, 0, false).
 Proof. exact init_rejected_is_empty. Qed.
 Print Assumptions c15_init_rejected_is_empty.
+
+(* which frequency setter refuses which value: vnadata_set_frequency and
+   vnadata_set_frequency_vector store any value (negative, zero, unordered, repeated); only
+   vnadata_add_frequency refuses a negative one (fifth seeding round: the generators of the
+   correspondence now draw such values, and vnadata_convert must carry them unchanged) *)
+Theorem c15_frequency_setters_accept_any_value : forall (V : Type) (vzero vdef : V) d,
+  Inv V vzero vdef d ->
+  (forall i x, in_range i (freqs V d) = true ->
+     snd (step V vzero vdef fixed d (OSetFreq V i x)) = ok V /\
+     fv V (fst (step V vzero vdef fixed d (OSetFreq V i x))) (Z.to_nat i) = x) /\
+  (forall l, snd (step V vzero vdef fixed d (OSetFreqVec V l)) = ok V /\
+             forall k, k < freqs V d -> fv V (fst (step V vzero vdef fixed d (OSetFreqVec V l))) k = nth k l 0%Z) /\
+  (forall x, snd (step V vzero vdef fixed d (OAddFreq V x)) = fail V <-> (x < 0)%Z).
+Proof. exact frequency_setters_accept_any_value. Qed.
+Print Assumptions c15_frequency_setters_accept_any_value.
